@@ -845,10 +845,15 @@ def build_case(kinds, file_modes, evlist, ends, after, dest_rel, pre=None, infos
             sched.append([n, "run"])
             expect.append(None)
     skip_mkdirfail = set()
+    no_cache = set()     # mirrors that found the artifact in the cache: the download goes on without touching the cache
     for idx, (p, e) in enumerate(evlist):
         op, res = e["op"], e.get("res")
         if op == "exited" or idx in skip_mkdirfail:
             continue
+        if p in no_cache and op != "killed":
+            continue
+        if op == "statDest" and res == "present" and kinds[p] == "mirror":
+            no_cache.add(p)
         if op == "killed":
             sched.append([p, "kill"]); expect.append([p, ["killed"]]); continue
         if op == "fetch":
@@ -920,7 +925,7 @@ def compare_case(req, exp, rep):
             continue
         want = RES_OF_PC[mp["pc"]]
         if kinds[i] == "mirror" and want == "skipped":
-            want = "ok"
+            continue        # the rest of the download does not concern the cache archive any more
         got = r["res"]
         if got == "internal":
             got = "fail"
